@@ -327,6 +327,7 @@ class Daemon(object):
         If a denied_reason is given, the handshake will fail with the given reason.
         """
         serializer_id = serializers.MarshalSerializer.serializer_id
+        msg = None
         msg_seq = 0
         try:
             msg = protocol.recv_stub(conn, [protocol.MSG_CONNECT])
@@ -351,10 +352,10 @@ class Daemon(object):
             }
             data = serializer.dumps(handshake_response)
             msgtype = protocol.MSG_CONNECTOK
-        except errors.ConnectionClosedError:
-            log.debug("handshake failed, connection closed early")
-            return False
         except Exception as x:
+            if msg is None and isinstance(x, errors.ConnectionClosedError):
+                log.debug("handshake failed, connection closed early")
+                return False
             log.debug("handshake failed, reason:", exc_info=True)
             serializer = serializers.serializers_by_id[serializer_id]
             data = serializer.dumps(str(x))
